@@ -60,6 +60,9 @@ type Step struct {
 	// partition's chunk iterator and the chunk selector's next look at the chunks (window.go); for the model they are
 	// appends before the NEXT page (theorem C03_eof_window: the position the page returns is the one before them)
 	Win bool `json:"win,omitempty"`
+	// WinKind: "" = the window after the chunk iterator's io.EOF; "count" = right after the chunk selector has read the
+	// count of the partition's chunk for its status (a page that starts at the end of the data: the count it decides by)
+	WinKind string `json:"wink,omitempty"`
 }
 
 type Filter struct {
@@ -1010,6 +1013,7 @@ func (r *runner) winQuery(req *api.QueryRequest, st Step) (*api.QueryResult, err
 	w := r.win
 	w.mu.Lock()
 	w.armed, w.src, w.eof, w.fired, w.err = true, pr.src, false, false, nil
+	w.kind = st.WinKind
 	w.action = func() error {
 		var err error
 		apps, err = r.applyAppends(st.Apps)
@@ -1066,7 +1070,7 @@ func (r *runner) winQuery(req *api.QueryRequest, st Step) (*api.QueryResult, err
 				off := 0
 				for _, c := range pr.layout {
 					if k < off+c.Cnt {
-						r.winObs = append(r.winObs, GTuple(lay(before), lay(pr.layout), GTuple(GN(c.Id), GN(uint64(k-off)))))
+						r.winObs = append(r.winObs, GTuple(lay(before), lay(pr.layout), GTuple(GN(c.Id), GN(uint64(k-off))), GBool(st.WinKind == "count")))
 						beyond = true
 						break
 					}
@@ -1078,7 +1082,7 @@ func (r *runner) winQuery(req *api.QueryRequest, st Step) (*api.QueryResult, err
 		if !beyond {
 			if pm, perr := parsePos(res.NextQueryRequest.Pos); perr == nil {
 				if p, ok := pm[pr.src]; ok {
-					r.winObs = append(r.winObs, GTuple(lay(before), lay(pr.layout), GTuple(GN(uint64(p.CId)), GN(uint64(p.Idx)))))
+					r.winObs = append(r.winObs, GTuple(lay(before), lay(pr.layout), GTuple(GN(uint64(p.CId)), GN(uint64(p.Idx))), GBool(st.WinKind == "count")))
 				}
 			}
 		}
